@@ -26,7 +26,10 @@ REACH = ['gambit.cli.dist:dist_cmd', 'gambit.cli.query:query_cmd', 'gambit.cli.s
 
 def shards(tier, seed):
 	n = 6 if tier == 'quick' else 24
-	return [dict(name=f'cmds-{i}', kind='cmds', sub=i, nrounds=2 if tier == 'quick' else 6) for i in range(n)]
+	out = [dict(name=f'cmds-{i}', kind='cmds', sub=i, nrounds=2 if tier == 'quick' else 6) for i in range(n)]
+	for i in range(2 if tier == 'quick' else 8):
+		out.append(dict(name=f'api-parse-{i}', kind='api', sub=i, nrounds=3 if tier == 'quick' else 10))
+	return out
 
 
 def param_pairs(rng):
@@ -156,7 +159,61 @@ def kopts(kp):
 	return ['-k', kp[0], '-p', kp[1]]
 
 
+def run_api(sh, ctx):
+	"""Library entry point for file queries (src/gambit/query.py query_parse): a history of calls in one process against databases
+	with different k-mer parameters, the caller re-using its own option dict / params object between calls."""
+	rng = random.Random(f'C14-api-{ctx.seed}-{sh["sub"]}')
+	from gambit.db import ReferenceDatabase
+	from gambit.query import query_parse, QueryParams
+	from gambit.seq import SequenceFile
+	for rnd in range(sh['nrounds']):
+		env = Env(ctx, rng, f'a{rnd}')
+		ks, ps = [5, 6, 7, 8, 9], ['AT', 'TA', 'ACG', 'GAT', 'CC']
+		specs = []
+		while len(specs) < 3:
+			kp = (rng.choice(ks), rng.choice(ps))
+			if kp not in specs:
+				specs.append(kp)
+		Q, R = [0, 1], [2, 3, 4]
+		dbs = []
+		for j, kp in enumerate(specs):
+			d, _w = env.database(kp, R, f'dbapi{j}')
+			dbs.append((kp, ReferenceDatabase.load_from_dir(d)))
+		files = [SequenceFile(env.genomes[i][0], 'fasta') for i in Q]
+		shared_kw = rng.choice([dict(), dict(concurrency=None), dict(concurrency='threads', max_workers=2)])
+		shared_params = QueryParams(report_closest=3)
+		try:
+			for step in range(8):
+				kp, db = dbs[rng.randrange(len(dbs))] if step else dbs[0]
+				style = rng.choice(['shared-dict', 'shared-dict', 'fresh-dict', 'none'])
+				kw = dict(parse_kw=shared_kw) if style == 'shared-dict' else (dict(parse_kw=dict(concurrency=None)) if style == 'fresh-dict' else {})
+				w = dict(step=step, database_params=list(kp), all_database_params=[list(s) for s in specs], parse_kw_style=style, parse_kw_initial=repr(sorted(k for k in shared_kw if k != 'progress')))
+				ctx.case(('api-parse', rnd, step, kp, style), nontrivial=True, sample=w if step == 1 and rnd == 0 else None)
+				ctx.count(f'api_parse_calls:{style}')
+				if step and kp != last:
+					ctx.count('api_parse_database_switches')
+				last = kp
+				try:
+					res = query_parse(db, files, shared_params, progress=None, **kw)
+				except Exception as e:
+					ctx.violation('matching-parameters-refused:query_parse', f'query_parse raised {type(e).__name__}: {e}', w)
+					continue
+				for qi, item in zip(Q, res.items):
+					ctx.evals += 1
+					dmin = min(env.dist(qi, ri, kp) for ri in R)
+					got = float(item.classifier_result.closest_match.distance)
+					if got != dmin:
+						others = [s for s in specs if s != kp and min(env.dist(qi, ri, s) for ri in R) == got]
+						ctx.violation('sides-use-different-parameters:query_parse', f'query_parse call #{step} on the database with {kp}: closest distance {got!r}, under the database\'s parameters it is {dmin!r}' + (f' (query genomes were parsed with {others[0]}?)' if others else ''), w)
+						break
+		finally:
+			for _kp, db in dbs:
+				db.signatures.close(); db.session.close()
+
+
 def run_shard(sh, ctx):
+	if sh['kind'] == 'api':
+		return run_api(sh, ctx)
 	rng = random.Random(f'C14-{ctx.seed}-{sh["sub"]}')
 	from gambit.sigs.base import load_signatures
 	for rnd in range(sh['nrounds']):
@@ -266,7 +323,7 @@ def finalize(merged, tier, seed, inconclusive):
 	c = merged['counters']
 	need = ['mismatch:query -s', 'mismatch:dist -k/-p == --qs, --rs differs', 'mismatch:dist -k/-p == --qs, --use-db differs', 'mismatch:dist --qs --rs', 'mismatch:dist --qs --use-db', 'mismatch:dist -k/-p + --qs / ref files', 'mismatch:dist -k/-p + --rs / query listfile',
 	        'mismatch:dist -k without -p', 'mismatch:signatures create --db-params + -k/-p', 'relation:k-differs', 'relation:prefix-differs', 'relation:both-differ', 'relation:other-side-is-the-default',
-	        'control:dist --qs --rs', 'control:dist query files + --use-db (inferred)', 'control:query files', 'control:signatures create --db-params', 'control:tree -s']
+	        'control:dist --qs --rs', 'control:dist query files + --use-db (inferred)', 'control:query files', 'control:signatures create --db-params', 'control:tree -s', 'api_parse_calls:shared-dict', 'api_parse_database_switches']
 	for n in need:
 		if c.get(n, 0) == 0:
 			inconclusive.append(f'class never observed: {n}')
